@@ -32,3 +32,7 @@ int32_t __wrap_psGetEntropy(unsigned char *bytes, uint32_t size, void *userPtr)
 }
 int __wrap_gettimeofday(struct timeval *tv, void *tz) { (void) tz; if (tv) { tv->tv_sec = mx_now; tv->tv_usec = 0; } return 0; }
 time_t __wrap_time(time_t *t) { if (t) *t = mx_now; return mx_now; }
+
+/* The session cache / ticket code reads CLOCK_MONOTONIC through clock_gettime (USE_HIGHRES_TIME):
+ * optional wrap (-Wl,--wrap=clock_gettime), weak so that a check can supply its own. */
+__attribute__((weak)) int __wrap_clock_gettime(clockid_t id, struct timespec *ts) { (void) id; if (ts) { ts->tv_sec = mx_now; ts->tv_nsec = 0; } return 0; }
